@@ -1862,6 +1862,8 @@ Box<ITV>::wrap_assign(const Variables_Set& vars,
       break;
     }
   }
+  // The intervals have been refined: the box may have become empty.
+  reset_empty_up_to_date();
   PPL_ASSERT(x.OK());
 #endif
 }
